@@ -139,6 +139,8 @@ def c13(tier, seed, replay):
             rep.fail({"P": x["P"], "kind": x["kind"], "perm": x["perm"], "delta": x["delta"], "q": x["q"], "v": x["v"],
                       "mode": x["mode"], "var": x["var"], "clause": clause, "src": x["src"]},
                      f"{clause} rewrite={x['kind']} source={x['src']} mode={x['mode']} problem={json.dumps(x['P'])[:300]}")
+    import engine
+    engine.init_stage(rep, tier, seed, ("C13:",))
     kinds = {}
     for x in recs:
         kinds[x["kind"]] = kinds.get(x["kind"], 0) + 1
